@@ -309,7 +309,14 @@ func runC12(r *ev.Recorder) {
 		f := jen.NewFile("p")
 		f.NoFormat = true
 		var items []jen.Code
-		mkstr := func(i int) string { return fmt.Sprintf("entry %d \" \n \xff %s", i, c12Units[i%len(c12Units)]) }
+		// (double spaces, a trailing backslash on every third entry, quotes, newline, an invalid byte)
+		mkstr := func(i int) string {
+			s := fmt.Sprintf("entry  %d \" \n \xff  %s", i, c12Units[i%len(c12Units)])
+			if i%3 == 1 {
+				s += "  C:\\dir\\"
+			}
+			return s
+		}
 		for i := 0; i < n; i++ {
 			want = append(want, mkstr(i))
 			items = append(items, jen.Lit(mkstr(i)))
